@@ -74,7 +74,7 @@ PROPS = {
               "Correspondence: each block's delivered set and ApplyEvent call count are compared with 'ancestry of the Atropos minus everything delivered before' "
               "computed by the reference; frames consecutive from 1; Atropos is a root of the frame (reference picks it among roots)."
               " Optional callbacks (Model/ApplyAtropos.lean, conditions of applyAtropos/confirmEvents regenerated as Gen.Lachesis): C02_callbacks_irrelevant - with BeginBlock given, the events a block marks confirmed are exactly those of the confirmEvents model whatever callbacks the application returned (ApplyEvent / EndBlock nil or not), ApplyEvent receives exactly the delivered list (nothing when nil), a seal is reported only through a given EndBlock; C02_no_begin_block.",
-              props=["LachesisVerif.Props.C02"], level="proof"),
+              props=["LachesisVerif.Props.Facts", "LachesisVerif.Props.C02"], level="proof"),
     "C03": _p("Proof: on the implementation-level model of the vector index (Model/Vec.lean, run in lock-step with vecengine/vecfc, kernels regenerated) "
               "the cheater loop of applyAtropos (validators in canonical order filtered by GetMergedHighestBefore(atropos).IsForkDetected) yields, for every "
               "valid parents-first history of fewer than 2^32-nVals events, every indexed event taken as Atropos and ANY number/weight of forkers, exactly the "
@@ -100,7 +100,7 @@ PROPS = {
               "for the model's DFS fuel only), nVals + #events < 2^32 (32-bit branch ids), quorum >= 1 (with quorum 0 code and definition differ on a three-way fork: witness in Props/C05.lean). "
               "Only covered by correspondence: that the Go code equals the model (LRU result cache warm/cold, every indexing order) - ForklessCause answers compared with the graph definition "
               "for random pairs, under every indexing order and cache size.",
-              props=["LachesisVerif.Props.C05"], level="proof", streams=["vec", "cons"]),
+              props=["LachesisVerif.Props.Facts", "LachesisVerif.Props.VecRowCache", "LachesisVerif.Props.C05"], level="proof", streams=["vec", "cons"]),
     "C06": _p("Proof: for the implementation-level model of the vector index (Model/Vec.lean: fillGlobalBranchID, CollectFrom, the two fork-detection loops, "
               "GatherFrom / no-fork fast path of GetMergedHighestBefore; kernels regenerated from vecengine/vecfc; run in lock-step with the real code) and EVERY valid "
               "parents-first history (any forks, forks of forks, any indexing order) of fewer than 2^32-nVals events, every indexed event a and validator c: "
@@ -112,7 +112,7 @@ PROPS = {
               "that the Go code equals the model (correspondence), the adapters wrapper. Correspondence: merged highest-before vectors (both accessors) compared with "
               "fork/max-seq of the graph definition."
               " Persistence of the index (Props/VecPersist.lean over Model/VecPersist.lean: store + unflushed overlay + in-memory branch table; the conditions of Engine.Flush / DropNotFlushed / InitBranchesInfo regenerated as Gen.VecPersist): for every sequence of add / flush / DropNotFlushed / query / restart the working view equals the functional run over the surviving events (working_view_eq_run), a restart gives the run over the FLUSHED events with the persisted branch table even when no fork happened yet (reload_eq_run_flushed, reload_branch_table, branches_record_persisted, fork_after_restart), and add followed by DropNotFlushed leaves no trace (add_drop_no_trace, add_drop_erased); negative witness for a Flush that persists the table only once a fork exists (Mutant.witness). ",
-              props=["LachesisVerif.Props.C06", "LachesisVerif.Props.VecPersist"], level="proof", streams=["vec", "cons"]),
+              props=["LachesisVerif.Props.Facts", "LachesisVerif.Props.C06", "LachesisVerif.Props.VecPersist"], level="proof", streams=["vec", "cons"]),
     "C07": _p("Proof (partial): the forkless-cause result cache (the only volatile state that survives DropNotFlushed) is transparent for every "
               "history of adds, commits, roll-backs, queries and evictions, provided an id never denotes two different events (negative witness for "
               "the pre-fix temporary ids); the Orderer model writes nothing before the frame check. Determinism of the uncached answer is discharged "
@@ -127,8 +127,9 @@ PROPS = {
               "Combined model (Props/Consensus.lean over Model/Indexed.lean = IndexedLachesis): Consensus.indexed_no_trace - a buildIndexed or a rejected processIndexed (wrong frame / election error) made at any point of any log of Process/Build calls returns literally the "
               "previous (Orderer state, index state, indexing order), so the final state and every later answer equal those of the log without the call (Consensus.processIndexed_rejected, buildIndexed_state); no hypotheses - true by construction of the model's transaction "
               "(Flush = keep the new index state, DropNotFlushed = keep the old one). Still not proved: that the real DropNotFlushed restores the tables (correspondence)."
+              " Row caches of vecfc.Index (Props/VecRowCache.lean): for every history of get / set / flush / DropNotFlushed / Reset / eviction (any policy) a read through the HighestBefore / LowestAfter LRU caches equals the uncached read (get_transparent, answers_transparent); transparent_iff: exactly the purge on roll-back, the purge on Reset and the Add in the setters are necessary (negative witnesses), the guard `NotFlushedPairs() != 0` is safe; the call pattern is the regenerated one (goCalls_is_the_code over Gen.FactsVec). Structural expectations (Props/Facts.lean over Gen.FactsCons / Gen.FactsVec): the unconditional calls and statement orders the models take for granted (fresh id in Build, deferred DropNotFlushed, Add before Process before Flush, purges, branch table written before the flush, ...) are regenerated as Bool facts and stated as theorems. "
               " Persistence of the index (Props/VecPersist.lean over Model/VecPersist.lean: store + unflushed overlay + in-memory branch table; the conditions of Engine.Flush / DropNotFlushed / InitBranchesInfo regenerated as Gen.VecPersist): for every sequence of add / flush / DropNotFlushed / query / restart the working view equals the functional run over the surviving events (working_view_eq_run), a restart gives the run over the FLUSHED events with the persisted branch table even when no fork happened yet (reload_eq_run_flushed, reload_branch_table, branches_record_persisted, fork_after_restart), and add followed by DropNotFlushed leaves no trace (add_drop_no_trace, add_drop_erased); negative witness for a Flush that persists the table only once a fork exists (Mutant.witness). ",
-              props=["LachesisVerif.Props.C07", "LachesisVerif.Props.Consensus", "LachesisVerif.Props.VecPersist"], level="proof"),
+              props=["LachesisVerif.Props.Facts", "LachesisVerif.Props.VecRowCache", "LachesisVerif.Props.C07", "LachesisVerif.Props.Consensus", "LachesisVerif.Props.VecPersist"], level="proof"),
     "C08": _p("Proof (partial: one epoch): on Model.Orderer (persisted = epoch, validators, LastDecidedFrame, roots table; volatile = the election; restart = "
               "bootstrap, which re-creates the election at LastDecidedFrame+1 and re-votes the known roots in table order). "
               "Whole continuations, from L5 as a proved invariant of process runs (OInv/OpenEl, C10): C08_restart_invisible_partial - for every valid history with accepted frames and "
@@ -153,7 +154,7 @@ PROPS = {
               "Hypotheses that remain there: the property's own (Valid history, claimed frames obey the frame rule, forkers < 1/3, parents-first orders), the application never seals (one epoch), nVals + number of events < 2^32 (C05: 32-bit branch ids), validators named by canonical index with non-zero 32-bit weights and the record built by Model.Pos.build (WeightsOK/BuiltFor), every event passed eventcheck with its claimed frame and parent list (Checked). Still not modelled: the reload of the index tables from BranchesInfo, store caches (C33), restarts across seals."
               "Several epochs with restarts (Consensus.indexed_restarts_multi_epoch_partial): the several-epoch run of the combined model and the same run with any number of restartIndexed calls at any points between Process calls in any epochs (also right after a seal) both succeed, emit literally the same block list and end with the same persisted Orderer state (epoch, validators, last decided frame, roots table), index state and indexing order; remaining per epoch: Valid, FramesAccepted, BFT, parents-first order, nVals+events < 2^32, WeightsOK, BuiltFor, Checked. "
               " Persistence of the index (Props/VecPersist.lean over Model/VecPersist.lean: store + unflushed overlay + in-memory branch table; the conditions of Engine.Flush / DropNotFlushed / InitBranchesInfo regenerated as Gen.VecPersist): for every sequence of add / flush / DropNotFlushed / query / restart the working view equals the functional run over the surviving events (working_view_eq_run), a restart gives the run over the FLUSHED events with the persisted branch table even when no fork happened yet (reload_eq_run_flushed, reload_branch_table, branches_record_persisted, fork_after_restart), and add followed by DropNotFlushed leaves no trace (add_drop_no_trace, add_drop_erased); negative witness for a Flush that persists the table only once a fork exists (Mutant.witness). ",
-              props=["LachesisVerif.Props.C08", "LachesisVerif.Props.Consensus", "LachesisVerif.Props.VecPersist"], level="proof"),
+              props=["LachesisVerif.Props.Facts", "LachesisVerif.Props.VecRowCache", "LachesisVerif.Props.C08", "LachesisVerif.Props.Consensus", "LachesisVerif.Props.VecPersist"], level="proof"),
     "C09": _p("Proof. Implementation level (Model.Orderer, run in lock-step against the Go code; unconditional in the oracles): if EndBlock returns a "
               "set at block (E,f), the state after onFrameDecided is literally Model.Orderer.initial (E+1 as idx.Epoch) set = the state Reset produces "
               "(LastDecidedFrame 0, frame to decide 1, no roots, fresh election), hence process/build/bootstrap continuations coincide "
@@ -164,7 +165,7 @@ PROPS = {
               "level: the same statement for Spec.Lachesis (C09_seal_switches_cleanly). Non-vacuity: executable one-validator runs sealing at frame 2. "
               "Correspondence only: that sealEpoch really empties the epoch DB / vector tables of the real store, and the confirmed-events half of "
               "'same blocks'; seals at arbitrary frames with mutated/unchanged sets and Reset twins on the real code.",
-              props=["LachesisVerif.Props.C09"], level="proof"),
+              props=["LachesisVerif.Props.Facts", "LachesisVerif.Props.C09"], level="proof"),
     "C10": _p("Proof (partial). On the election model (regenerated kernels): Atropos choice rule, vote rule (tie = yes, decision on quorum), round arithmetic; invariants of any run of "
               "processRoot from reset (yes-votes name a root of the frame to decide in the subject's slot, decisions only in rounds >= 2 and once per subject, returned frame = frameToDecide). "
               "On the graph-level rules (Spec/ElectionRules.lean: forkless cause = FCSpec of C05, roots, frame rule, votes by recursion on the round, decisions, Atropos, BFT): L1 (two quorums share a "
